@@ -82,6 +82,8 @@ type Op struct {
 	Start   string `json:"start,omitempty"`
 	Level   string `json:"level,omitempty"` // driver | engine
 	Parts   []int  `json:"parts,omitempty"` // GridFS: fragmentation of writes / reads
+	AF      []*J   `json:"af,omitempty"`    // array filters
+	Wide    bool   `json:"wide,omitempty"`  // update outside the reference model's operator domain (judged by the model-free oracles only)
 }
 
 // TaskPlan is the script of one task.
@@ -129,6 +131,7 @@ type Cfg struct {
 	SharedSess   bool   `json:"shared_sess,omitempty"`
 	CloseAtEnd   bool   `json:"close_at_end,omitempty"`
 	StartOffsetS int64  `json:"start_offset_s,omitempty"`
+	Fine         int    `json:"fine,omitempty"` // statement-level scheduling points: 1 protocol files, 2 whole protocol packages
 }
 
 // Plan is everything that determines a run.
@@ -207,6 +210,7 @@ type Outcome struct {
 	Schedule     []int          `json:"-"`
 	Unseeded     int            `json:"unseeded,omitempty"`
 	Log          []string       `json:"-"`
+	Trace        []string       `json:"-"`
 	Nontrivial   bool           `json:"nontrivial"`
 }
 
@@ -221,6 +225,18 @@ func hash64(parts ...any) uint64 {
 // runSeed derives the seed of run i from the batch seed.
 func runSeed(seed uint64, prop string, i int) uint64 {
 	return hash64("run", seed, prop, i)
+}
+
+// fineKnob decides (from its own PRNG stream, so that the rest of the plan does
+// not depend on it) whether a run uses statement-level scheduling points.
+func fineKnob(seed uint64, pct1, pct2 int) int {
+	switch k := newRNG(seed, 0xf14e).IntN(100); {
+	case k < pct2:
+		return 2
+	case k < pct1+pct2:
+		return 1
+	}
+	return 0
 }
 
 func newRNG(seed uint64, stream uint64) *rand.Rand {
